@@ -12,7 +12,7 @@ SInit == /\ db = [p \in Parts |-> IF RandomElement(1..2) = 1 THEN [k \in Keys |-
                                   ELSE [k \in Keys |-> RandomElement(Vals \cup {None})]]
          /\ hist = <<[a |-> "init", upd |-> {}, obs |-> Obs(db)]>>
 SNext == /\ Len(hist) <= K
-         /\ LET upd == RandUpd IN
+         /\ \E upd \in {RandUpd} :   \* bound once (a LET definition may be re-evaluated per use)
               /\ Commit(upd)
               /\ hist' = Append(hist, [a |-> "commit", upd |-> UpdJson(upd), obs |-> Obs(Apply(db, upd))])
 SSpec == SInit /\ [][SNext]_<<db, hist>>
